@@ -252,9 +252,14 @@ func (tc *TypeConverter) TypeToExpr(t types.Type) ast.Expr {
 		case types.RecvOnly:
 			dir = ast.RECV
 		}
+		value := tc.TypeToExpr(typ.Elem())
+		// chan (<-chan T) needs its parentheses: "chan <-chan T" is read as chan<- (chan T)
+		if elem, ok := typ.Elem().(*types.Chan); ok && elem.Dir() == types.RecvOnly && typ.Dir() != types.RecvOnly {
+			value = &ast.ParenExpr{X: value}
+		}
 		return &ast.ChanType{
 			Dir:   dir,
-			Value: tc.TypeToExpr(typ.Elem()),
+			Value: value,
 		}
 	default:
 		return ast.NewIdent(t.String())
